@@ -30,7 +30,9 @@ Recognised subset of a pattern realiser (anything else => Untranslatable):
     NAME = None ...
     a = d.pop(KEY, None) ; if a is not None: NAME = ELT | series(NAME, ELT) | parallel(NAME, ELT)
     a = d.pop(KEY, 0)    ; if a != 0: raise ValueError(...)
-    if d != {}: raise ValueError(...)
+    if d != {}: raise ValueError(...)      -- exhaustiveness test (GExhaust); `if NAME is None: raise` and a
+                                               missing test are translated too (GVarNone / GNoGuard) but fail the
+                                               generated obligation guard_<realiser>
     return NAME | return series(NAME, ...) | return parallel(NAME, ...)
   KEY ::= 1 | var | 1 / var          ELT ::= (R|G|L|C)(a) | (R|G|L|C)(1 / a)
 """
@@ -94,10 +96,11 @@ class Pattern:
             r = 'RVar %d%%nat' % self.ret[1]
         else:
             r = '%s [%s]' % ('RSer' if self.ret[0] == 'series' else 'RPar', '; '.join('%d%%nat' % v for v in self.ret[1]))
-        return 'MkPat %s %s [%s] (%s)' % (b(self.par), b(self.zero_none), '; '.join(ss), r)
+        g = {'exhaust': 'GExhaust', 'none': 'GNoGuard'}.get(self.guard[0]) or '(GVarNone %d%%nat)' % self.guard[1]
+        return 'MkPat %s %s %s [%s] (%s)' % (b(self.par), b(self.zero_none), g, '; '.join(ss), r)
 
     def fingerprint(self):
-        return (self.par, self.zero_none, tuple(self.steps), self.ret)
+        return (self.par, self.zero_none, self.guard, tuple(self.steps), self.ret)
 
 
 def parse_key(n, varname):
@@ -186,7 +189,7 @@ def parse_pattern(fn):
     popped = set()
     while True:
         st = cur()
-        if isinstance(st, ast.If):
+        if isinstance(st, (ast.If, ast.Return)):
             break
         # a = d.pop(KEY, DEFAULT)
         if not (isinstance(st, ast.Assign) and len(st.targets) == 1 and is_name(st.targets[0], 'a')
@@ -227,10 +230,28 @@ def parse_pattern(fn):
         else:
             fail(st, 'unexpected default of d.pop')
         i += 1
+    # the test before the return.  Exhaustiveness tests ("nothing is left in d") are
+    # translated to GExhaust; tests that do not imply that every term was consumed are
+    # translated faithfully (GVarNone / GNoGuard) and make the generated obligation
+    # guard_<name> : p_exhaust pat_<name> = true  fail.
     st = cur()
-    if not (ast.unparse(st.test) == 'd != {}' and not st.orelse and len(st.body) == 1 and is_raise_valueerror(st.body[0])):
-        fail(st, 'expected `if d != {}: raise ValueError(...)`')
-    i += 1
+    if isinstance(st, ast.Return):
+        guard = ('none',)
+    else:
+        if not (isinstance(st, ast.If) and not st.orelse and len(st.body) == 1 and is_raise_valueerror(st.body[0])):
+            fail(st, 'expected `if <test>: raise ValueError(...)` before the return')
+        t = ast.unparse(st.test)
+        if t in ('d != {}', 'd != dict()', 'len(d) != 0', 'len(d) > 0', 'len(d) >= 1', 'd', 'not d == {}', 'not not d', 'len(d)'):
+            guard = ('exhaust',)
+        else:
+            m = None
+            if (isinstance(st.test, ast.Compare) and isinstance(st.test.left, ast.Name) and st.test.left.id in variables
+                    and len(st.test.ops) == 1 and isinstance(st.test.ops[0], ast.Is) and is_const(st.test.comparators[0], None)):
+                m = variables.index(st.test.left.id)
+            if m is None:
+                fail(st, 'unrecognised test before the return')
+            guard = ('varnone', m)
+        i += 1
     st = cur()
     if not isinstance(st, ast.Return) or i != len(body) - 1:
         fail(st, 'expected the final return')
@@ -242,7 +263,9 @@ def parse_pattern(fn):
         ret = (rv.func.id, tuple(variables.index(a.id) for a in rv.args))
     else:
         fail(st, 'unexpected return value')
-    return Pattern(name, par, zero_none, steps, ret, len(variables), fn.lineno)
+    p = Pattern(name, par, zero_none, steps, ret, len(variables), fn.lineno)
+    p.guard = guard
+    return p
 
 
 def parse_realiser_call(n, loopvar):
